@@ -69,27 +69,50 @@ Proof.
   unfold sc_unset_type. intros H. apply filter_In in H as [_ H]. cbn [fst snd] in H.
   assert (E : path_eqb p p = true) by (apply path_eqb_eq; reflexivity). rewrite E, !String.eqb_refl in H. discriminate.
 Qed.
+Lemma sc_unset_sub s p f x : In x (sc_unset s p f) -> In x s.
+Proof. unfold sc_unset. intros H. apply filter_In in H. apply H. Qed.
+(* the client selects field f for objects of type T: for that type, or for every type *)
+Definition selected_for (cs : list hsel) (T f : string) : Prop := In (Some T, f) cs \/ In (None, f) cs.
+Lemma sc_unset_h_other s path h x : In x s ->
+  (fst (fst x) = path -> ~ selected_for [h] (snd (fst x)) (snd x)) -> In x (sc_unset_h s path h).
+Proof.
+  intros H Hn. destruct h as [[t|] f]; unfold sc_unset_h; cbn [fst snd].
+  - apply sc_unset_type_other; [exact H|]. intros E. subst x. cbn [fst snd] in Hn. apply (Hn eq_refl). left. left. reflexivity.
+  - unfold sc_unset. apply filter_In. split; [exact H|].
+    destruct (path_eqb (fst (fst x)) path) eqn:E1; [|reflexivity]. destruct (snd x =? f) eqn:E2; [|reflexivity].
+    exfalso. apply path_eqb_eq in E1. apply String.eqb_eq in E2. apply (Hn E1). right. left. rewrite E2. reflexivity.
+Qed.
+Lemma sc_unset_h_sub s path h x : In x (sc_unset_h s path h) -> In x s.
+Proof. destruct h as [[t|] f]; unfold sc_unset_h; cbn [fst snd]; [apply sc_unset_type_sub|apply sc_unset_sub]. Qed.
 Lemma unset_selected_other sc path sub : forall s x, In x s ->
-  (fst (fst x) = path -> ~ In (snd (fst x), snd x) (client_selected sc sub)) -> In x (unset_selected sc path sub s).
+  (fst (fst x) = path -> ~ selected_for (client_selected sc sub) (snd (fst x)) (snd x)) -> In x (unset_selected sc path sub s).
 Proof.
   unfold unset_selected. induction (client_selected sc sub) as [|h r IH]; intros s x H Hn; cbn [fold_left]; [exact H|].
   apply IH.
-  - apply sc_unset_type_other; [exact H|]. intros E. subst x. cbn [fst snd] in Hn. apply (Hn eq_refl). left. destruct h; reflexivity.
-  - intros E H'. apply (Hn E). right. exact H'.
+  - apply sc_unset_h_other; [exact H|]. intros E [Hs|Hs]; apply (Hn E); [left|right]; (destruct Hs as [<-|[]]; left; reflexivity).
+  - intros E [Hs|Hs]; apply (Hn E); [left|right]; right; exact Hs.
 Qed.
 Lemma unset_selected_sub sc path sub : forall s x, In x (unset_selected sc path sub s) -> In x s.
 Proof.
   unfold unset_selected. induction (client_selected sc sub) as [|h r IH]; intros s x H; cbn [fold_left] in H; [exact H|].
-  apply IH in H. apply sc_unset_type_sub in H. exact H.
+  apply IH in H. apply sc_unset_h_sub in H. exact H.
 Qed.
-Lemma unset_selected_gone sc path sub : forall s t f, In (t, f) (client_selected sc sub) -> ~ In (path, t, f) (unset_selected sc path sub s).
+Lemma unset_children_other sc ss ip : forall s x, In x s ->
+  (forall a n ty d y sub, In (SanField a n ty d (y :: sub)) ss -> fst (fst x) = ip ++ [a] ->
+                          ~ selected_for (client_selected sc (y :: sub)) (snd (fst x)) (snd x)) ->
+  In x (unset_children sc ss ip s).
 Proof.
-  unfold unset_selected. induction (client_selected sc sub) as [|h r IH]; intros s t f Hin; [destruct Hin|]. cbn [fold_left].
-  destruct Hin as [E|Hin]; [|apply IH, Hin]. subst h. cbn [fst snd]. intros H.
-  assert (G : forall l s0 x, In x (fold_left (fun acc h => sc_unset_type acc path (fst h) (snd h)) l s0) -> In x s0).
-  { induction l as [|h' l' IHl]; intros s0 x Hx; [exact Hx|]. cbn [fold_left] in Hx. apply IHl in Hx. apply sc_unset_type_sub in Hx. exact Hx. }
-  apply G in H. apply sc_unset_type_gone in H. exact H.
+  unfold unset_children. induction ss as [|z r IH]; intros s x H Hn; cbn [fold_left]; [exact H|].
+  apply IH.
+  - destruct z as [a n ty d [|y sub]|c o fd sub]; [exact H| |exact H].
+    apply unset_selected_other; [exact H|]. intros E. apply (Hn a n ty d y sub); [left; reflexivity|exact E].
+  - intros a n ty d y sub Hin. apply (Hn a n ty d y sub). right. exact Hin.
 Qed.
+Lemma closing_other sc ss ip s x : In x s -> fst (fst x) <> ip ->
+  (forall a n ty d y sub, In (SanField a n ty d (y :: sub)) ss -> fst (fst x) = ip ++ [a] ->
+                          ~ selected_for (client_selected sc (y :: sub)) (snd (fst x)) (snd x)) ->
+  In x (closing sc ss ip s).
+Proof. intros H Hp Hn. unfold closing. apply unset_children_other; [apply unset_level_other; assumption|exact Hn]. Qed.
 
 (* the types an object selected through a field of type ty can have, as far as registration goes *)
 Definition reg_types (sc : sschema) (ty : string) : list string :=
@@ -129,7 +152,7 @@ Lemma level_go tm sc ip sub acc :
   (fix go (l : list ssel) (acc' : list ssel * scrub) := match l with [] => acc' | x :: r => go r (san_sel tm sc ip x acc') end) sub acc =
   level tm sc ip sub acc.
 Proof. revert acc. induction sub as [|x r IH]; intros acc; [reflexivity|]. cbn [level fold_left]. apply IH. Qed.
-Lemma sanitize_level tm sc ss ip : sanitize tm sc ss ip = (fst (level tm sc ip ss ([], [])), unset_level ss ip (snd (level tm sc ip ss ([], [])))).
+Lemma sanitize_level tm sc ss ip : sanitize tm sc ss ip = (fst (level tm sc ip ss ([], [])), closing sc ss ip (snd (level tm sc ip ss ([], [])))).
 Proof. unfold sanitize, level. destruct (fold_left (fun acc x => san_sel tm sc ip x acc) ss ([], [])). reflexivity. Qed.
 
 (* what the sanitizer does with a field that has a selection set, in terms of the level below *)
@@ -138,7 +161,7 @@ Lemma san_sel_field tm sc ip a n ty d x sub result scr :
   let '(child, sf) := sanitize tm sc (x :: sub) (ip ++ [a]) in
   let scr1 := sc_merge scr sf in
   let '(child', added) := add_scrub_fields tm sc child ty false in
-  (add_to_result result [SanField a n ty d child'], unset_selected sc (ip ++ [a]) (x :: sub) (set_missing sc ip a ty child' scr1 added)).
+  (add_to_result result [SanField a n ty d child'], set_missing sc ip a ty child' scr1 added).
 Proof.
   cbn [san_sel]. rewrite level_go. rewrite sanitize_level. cbn [level fold_left].
   fold (level tm sc (ip ++ [a]) sub (san_sel tm sc (ip ++ [a]) x ([], []))).
@@ -162,33 +185,25 @@ Proof.
   destruct (add_scrub_fields tm sc child c true). reflexivity.
 Qed.
 
-(* what processing one selection of a level takes out of the registrations made so far: for a field, what the client
-   selects himself through the fragments below it, at the field's path *)
-Definition takes_out (sc : sschema) (ip : list string) (s : ssel) (x : entry) : Prop :=
-  match s with
-  | SanField a _ _ _ sub => fst (fst x) = ip ++ [a] /\ In (snd (fst x), snd x) (client_selected sc sub)
-  | SanFrag _ _ _ _ => False
-  end.
-(* apart from that the accumulated registrations only grow while a level is processed *)
-Lemma san_sel_mono tm sc ip s result scr x : In x scr -> ~ takes_out sc ip s x -> In x (snd (san_sel tm sc ip s (result, scr))).
+(* the accumulated registrations only grow while a level is processed (what is taken out again is taken out when the
+   level closes) *)
+Lemma san_sel_mono tm sc ip s result scr x : In x scr -> In x (snd (san_sel tm sc ip s (result, scr))).
 Proof.
-  intros H Hn. destruct s as [a n ty d [|y sub]|c o fd sub].
+  intros H. destruct s as [a n ty d [|y sub]|c o fd sub].
   - cbn [san_sel snd]. exact H.
   - rewrite san_sel_field. destruct (sanitize tm sc (y :: sub) (ip ++ [a])) as [child sf].
     destruct (add_scrub_fields tm sc child ty false) as [child' added]. cbn [snd].
-    apply unset_selected_other; [apply set_missing_mono, sc_merge_left, H|].
-    intros E H'. apply Hn. cbn [takes_out]. split; assumption.
+    apply set_missing_mono, sc_merge_left, H.
   - rewrite san_sel_frag. destruct (sanitize tm sc sub ip) as [child sf].
     destruct (add_scrub_fields tm sc child c true) as [child' added].
     assert (In x (set_frag sc ip c (sc_merge scr sf) added)).
     { apply set_frag_mono, sc_merge_left, H. }
     destruct (kind_of sc o); cbn [snd]; assumption.
 Qed.
-Lemma level_mono tm sc ip ss : forall acc x, In x (snd acc) -> (forall s, In s ss -> ~ takes_out sc ip s x) -> In x (snd (level tm sc ip ss acc)).
+Lemma level_mono tm sc ip ss : forall acc x, In x (snd acc) -> In x (snd (level tm sc ip ss acc)).
 Proof.
-  induction ss as [|s r IH]; intros acc x H Hn; [exact H|]. cbn [level fold_left]. apply IH.
-  - destruct acc as [result scr]. apply san_sel_mono; [exact H|]. apply Hn. left. reflexivity.
-  - intros s' Hs'. apply Hn. right. exact Hs'.
+  induction ss as [|s r IH]; intros acc x H; [exact H|]. cbn [level fold_left]. apply IH.
+  destruct acc as [result scr]. apply san_sel_mono, H.
 Qed.
 
 (* ---- where a field occurs: under which insertion path ---- *)
@@ -210,9 +225,10 @@ Definition added_for (tm : tmap) (sc : sschema) (ip : list string) (a ty : strin
 Definition selection_for (tm : tmap) (sc : sschema) (ip : list string) (a ty : string) (sub : list ssel) : list ssel :=
   fst (add_scrub_fields tm sc (fst (sanitize tm sc sub (ip ++ [a]))) ty false).
 
-(* no occurrence of the response key at that place selects the field itself, through a fragment, for that type *)
+(* no selection of that response key at that place selects the field itself — directly, or through a fragment that
+   applies to objects of that type *)
 Definition not_client_selected (sc : sschema) (ss : list ssel) (ip : list string) (a : string) (ip' : list string) (T f : string) : Prop :=
-  forall n' ty' d' sub', occ ss ip (SanField a n' ty' d' sub') ip' -> ~ In (T, f) (client_selected sc sub').
+  forall n' ty' d' sub', occ ss ip (SanField a n' ty' d' sub') ip' -> ~ selected_for (client_selected sc sub') T f.
 
 Lemma tail_neq (ip ip' : list string) (a a0 : string) : List.length ip < List.length ip' -> ip' ++ [a] <> ip ++ [a0].
 Proof. intros Hl E. apply (f_equal (@List.length string)) in E. rewrite !app_length in E. cbn in E. lia. Qed.
@@ -227,47 +243,45 @@ Proof.
   intros ss ip a n ty d x sub ip' Hocc. remember (SanField a n ty d (x :: sub)) as s eqn:Es.
   induction Hocc as [ss ip s Hin | ss ip a0 n0 ty0 d0 sub0 s ip' Hin Hocc IH | ss ip c o fd sub0 s ip' Hin Hocc IH];
     intros f T Hf HT Hfr Hcs; rewrite sanitize_level; cbn [snd].
-  - subst s. apply unset_level_other; [|cbn [fst]; intros E; apply (f_equal (@List.length string)) in E; rewrite app_length in E; cbn in E; lia].
-    pose proof Hin as Hin0. apply in_split in Hin as (l1 & l2 & ->). unfold level. rewrite fold_left_app. cbn [fold_left].
-    apply level_mono.
-    + match goal with |- context [san_sel _ _ _ _ ?acc] => destruct acc as [result scr] end. rewrite san_sel_field.
+  - subst s. apply closing_other.
+    + apply in_split in Hin as (l1 & l2 & ->). unfold level. rewrite fold_left_app. cbn [fold_left].
+      apply level_mono.
+      match goal with |- context [san_sel _ _ _ _ ?acc] => destruct acc as [result scr] end. rewrite san_sel_field.
       unfold added_for in Hf. unfold selection_for in Hfr. destruct (sanitize tm sc (x :: sub) (ip ++ [a])) as [child sf]. cbn [fst] in Hf, Hfr.
       destruct (add_scrub_fields tm sc child ty false) as [child' added]. cbn [fst snd] in *.
-      apply unset_selected_other; [apply set_missing_in; assumption|]. cbn [fst snd]. intros _.
-      apply (Hcs n ty d (x :: sub)). apply occ_here. exact Hin0.
-    + intros s' Hs'. destruct s' as [a' n' ty' d' sub'|]; cbn [takes_out fst snd]; [|tauto]. intros [E Hsel].
-      apply app_inj_tail in E as [_ <-]. apply (Hcs n' ty' d' sub'); [|exact Hsel]. apply occ_here.
-      apply in_or_app. right. right. exact Hs'.
+      apply set_missing_in; assumption.
+    + cbn [fst]. intros E. apply (f_equal (@List.length string)) in E. rewrite app_length in E. cbn in E. lia.
+    + cbn [fst snd]. intros a' n' ty' d' y' sub' Hin' E. apply app_inj_tail in E as [_ <-].
+      apply (Hcs n' ty' d' (y' :: sub')). apply occ_here. exact Hin'.
   - assert (Hcs' : not_client_selected sc sub0 (ip ++ [a0]) a ip' T f).
     { intros n' ty' d' sub' Ho. apply (Hcs n' ty' d' sub'). eapply occ_field; eassumption. }
     specialize (IH Es f T Hf HT Hfr Hcs'). pose proof (occ_longer _ _ _ _ Hocc) as Hlen. rewrite app_length in Hlen. cbn in Hlen.
-    apply unset_level_other; [|cbn [fst]; intros E; apply (f_equal (@List.length string)) in E; rewrite app_length in E; cbn in E; lia].
-    apply in_split in Hin as (l1 & l2 & ->). unfold level. rewrite fold_left_app. cbn [fold_left].
-    apply level_mono.
-    + match goal with |- context [san_sel _ _ _ _ ?acc] => destruct acc as [result scr] end.
+    apply closing_other.
+    + apply in_split in Hin as (l1 & l2 & ->). unfold level. rewrite fold_left_app. cbn [fold_left].
+      apply level_mono.
+      match goal with |- context [san_sel _ _ _ _ ?acc] => destruct acc as [result scr] end.
       destruct sub0 as [|y sub0']; [inversion Hocc; subst; match goal with H : In _ [] |- _ => destruct H end|].
       rewrite san_sel_field. destruct (sanitize tm sc (y :: sub0') (ip ++ [a0])) as [child sf]. cbn [snd] in IH.
       destruct (add_scrub_fields tm sc child ty0 false) as [child' added]. cbn [snd].
-      apply unset_selected_other; [apply set_missing_mono, sc_merge_right, IH|]. cbn [fst snd]. intros E.
-      exfalso. revert E. apply tail_neq. lia.
-    + intros s' Hs'. destruct s' as [a' n' ty' d' sub'|]; cbn [takes_out fst snd]; [|tauto]. intros [E _].
-      revert E. apply tail_neq. lia.
+      apply set_missing_mono, sc_merge_right, IH.
+    + cbn [fst]. intros E. apply (f_equal (@List.length string)) in E. rewrite app_length in E. cbn in E. lia.
+    + cbn [fst snd]. intros a' n' ty' d' y' sub' _ E. exfalso. revert E. apply tail_neq. lia.
   - assert (Hcs' : not_client_selected sc sub0 ip a ip' T f).
     { intros n' ty' d' sub' Ho. apply (Hcs n' ty' d' sub'). eapply occ_frag; eassumption. }
     specialize (IH Es f T Hf HT Hfr Hcs'). pose proof (occ_longer _ _ _ _ Hocc) as Hlen.
-    apply unset_level_other; [|cbn [fst]; intros E; apply (f_equal (@List.length string)) in E; rewrite app_length in E; cbn in E; lia].
-    pose proof Hin as Hin0. apply in_split in Hin as (l1 & l2 & El). unfold level. rewrite El, fold_left_app. cbn [fold_left].
-    apply level_mono.
-    + match goal with |- context [san_sel _ _ _ _ ?acc] => destruct acc as [result scr] end.
+    apply closing_other.
+    + apply in_split in Hin as (l1 & l2 & ->). unfold level. rewrite fold_left_app. cbn [fold_left].
+      apply level_mono.
+      match goal with |- context [san_sel _ _ _ _ ?acc] => destruct acc as [result scr] end.
       rewrite san_sel_frag. destruct (sanitize tm sc sub0 ip) as [child sf]. cbn [snd] in IH.
       destruct (add_scrub_fields tm sc child c true) as [child' added].
       assert (In (ip' ++ [a], T, f) (set_frag sc ip c (sc_merge scr sf) added)).
       { apply set_frag_mono, sc_merge_right, IH. }
       destruct (kind_of sc o); cbn [snd]; assumption.
+    + cbn [fst]. intros E. apply (f_equal (@List.length string)) in E. rewrite app_length in E. cbn in E. lia.
     + (* a field next to the fragment with the same response key, at the same place *)
-      intros s' Hs'. destruct s' as [a' n' ty' d' sub'|]; cbn [takes_out fst snd]; [|tauto]. intros [E Hsel].
-      apply app_inj_tail in E as [-> <-]. apply (Hcs n' ty' d' sub'); [|exact Hsel]. apply occ_here.
-      rewrite El. apply in_or_app. right. right. exact Hs'.
+      cbn [fst snd]. intros a' n' ty' d' y' sub' Hin' E. apply app_inj_tail in E as [-> <-].
+      apply (Hcs n' ty' d' (y' :: sub')). apply occ_here. exact Hin'.
 Qed.
 
 (* what add_scrub_fields adds are the two helper names, each at most once, and only when the selection lacks it *)
@@ -347,18 +361,43 @@ Qed.
 Definition has_alias (l : list ssel) (a : string) : Prop :=
   exists n ty d sub, In (SanField a n ty d sub) l.
 
-Lemma add_to_result_keeps s new x : In x s -> In x (add_to_result s new).
-Proof. intros H. unfold add_to_result. apply in_app_iff. left. exact H. Qed.
-Lemma add_to_result_alias s a n ty d sub : has_alias (add_to_result s [SanField a n ty d sub]) a.
+Lemma has_key_alias s a : has_key s a = true -> has_alias s a.
 Proof.
-  unfold add_to_result. cbn [filter alias_of].
-  destruct (existsb (fun e => match alias_of e with Some a' => a' =? a | None => false end) s) eqn:E; cbn [negb].
-  - apply existsb_exists in E as (e & He & Ha). destruct e as [a' n' ty' d' sub'|]; cbn [alias_of] in Ha; [|discriminate].
-    apply String.eqb_eq in Ha. subst a'. exists n', ty', d', sub'. apply in_app_iff. left. exact He.
-  - exists n, ty, d, sub. apply in_app_iff. right. left. reflexivity.
+  unfold has_key. intros E. apply existsb_exists in E as (e & He & Ha). destruct e as [a' n' ty' d' sub'|]; cbn [alias_of] in Ha; [|discriminate].
+  apply String.eqb_eq in Ha. subst a'. exists n', ty', d', sub'. exact He.
+Qed.
+Lemma update_first_alias a0 f s a : has_alias s a -> has_alias (update_first a0 f s) a.
+Proof.
+  induction s as [|e r IH]; intros (n & ty & d & sub & H); [destruct H|]. cbn [update_first].
+  destruct e as [a' n' ty' d' sub'|c o fd sub'].
+  - destruct (a' =? a0) eqn:E.
+    + destruct H as [H|H].
+      * inversion H; subst. exists n, ty, d, (f sub). left. reflexivity.
+      * exists n, ty, d, sub. right. exact H.
+    + destruct H as [H|H].
+      * exists n, ty, d, sub. left. exact H.
+      * destruct IH as (n2 & ty2 & d2 & sub2 & H2); [exists n, ty, d, sub; exact H|]. exists n2, ty2, d2, sub2. right. exact H2.
+  - destruct H as [H|H]; [discriminate|].
+    destruct IH as (n2 & ty2 & d2 & sub2 & H2); [exists n, ty, d, sub; exact H|]. exists n2, ty2, d2, sub2. right. exact H2.
+Qed.
+Lemma add_sel_keeps_alias x s a : has_alias s a -> has_alias (add_sel x s) a.
+Proof.
+  intros H. destruct x as [a0 n0 ty0 d0 sub0|c o fd sub0]; cbn [add_sel].
+  - destruct (has_key s a0).
+    + destruct sub0; [exact H|apply update_first_alias, H].
+    + destruct H as (n & ty & d & sub & H). exists n, ty, d, sub. apply in_or_app. left. exact H.
+  - destruct H as (n & ty & d & sub & H). exists n, ty, d, sub. apply in_or_app. left. exact H.
 Qed.
 Lemma has_alias_mono s new a : has_alias s a -> has_alias (add_to_result s new) a.
-Proof. intros (n & ty & d & sub & H). exists n, ty, d, sub. apply add_to_result_keeps, H. Qed.
+Proof.
+  unfold add_to_result. revert s. induction new as [|x r IH]; intros s H; [exact H|]. cbn [fold_left]. apply IH, add_sel_keeps_alias, H.
+Qed.
+Lemma add_to_result_alias s a n ty d sub : has_alias (add_to_result s [SanField a n ty d sub]) a.
+Proof.
+  unfold add_to_result. cbn [fold_left add_sel]. destruct (has_key s a) eqn:E.
+  - apply has_key_alias in E. destruct sub; [exact E|apply update_first_alias, E].
+  - exists n, ty, d, sub. apply in_or_app. right. left. reflexivity.
+Qed.
 
 Lemma san_sel_keeps_aliases tm sc ip s result scr a : has_alias result a -> has_alias (fst (san_sel tm sc ip s (result, scr))) a.
 Proof.
